@@ -193,6 +193,10 @@ def f(t, d=("dflt", 1.5)):
 
 func main() {
 	r := vlib.Start("C15")
+	if r.IsWorker() {
+		recordFaults(r) // worker processes only serve the record-fault part
+		return
+	}
 	// (a1) all byte strings of length <= 3 over all 256 values; sharded by first byte
 	r.Parallel(257, func(first int) {
 		a := newAcc(r)
